@@ -20,6 +20,8 @@ func init() {
 			"NOT decided: when the negotiation phase ends (socket read timeout) and TCP segmentation — timing; segmentation is irrelevant to the handler by construction (it is fed single bytes), which is the decided feed-all clause.",
 		Assumptions: []string{"util.ByteIsAny is membership in the given constant set (its shape is checked under C15/feed-all)"},
 		Mutants: []Mutant{
+			{ID: "C15-open-redials", Desc: "Telnet.Open dials a second time when the first attempt fails", Rule: "C15/single-dial",
+				Edits: []Edit{{File: "transport/telnet.go", Old: "\terr = t.handleControlChars(a)\n\tif err != nil {\n\t\treturn err\n\t}\n\n\treturn nil\n}", New: "\terr = t.handleControlChars(a)\n\tif err != nil {\n\t\tt.c, err = net.Dial(tcp, fmt.Sprintf(\"%s:%d\", a.Host, a.Port))\n\t\tif err != nil {\n\t\t\treturn err\n\t\t}\n\n\t\treturn t.handleControlChars(a)\n\t}\n\n\treturn nil\n}"}}},
 			{ID: "C15-negotiation-abandoned-on-data", Desc: "the negotiation loop returns when the server opens with plain data", Rule: "C15/loop-continues",
 				Edits: []Edit{{File: "transport/telnet.go", Old: "\t\tctrlBuf, handleErr = t.handleControlCharResponse(ctrlBuf, charBuf[0])\n\t\tif handleErr != nil {\n\t\t\treturn handleErr\n\t\t}\n", New: "\t\tctrlBuf, handleErr = t.handleControlCharResponse(ctrlBuf, charBuf[0])\n\t\tif handleErr != nil {\n\t\t\treturn handleErr\n\t\t}\n\n\t\tif len(ctrlBuf) == 0 && len(t.initialBuf) == 1 {\n\t\t\treturn t.c.SetReadDeadline(time.Time{})\n\t\t}\n"}}},
 			{ID: "C15-accept-every-do", Desc: "every DO accepted with WILL", Rule: "C15/automaton",
